@@ -268,6 +268,11 @@ def compile_stage(ctx, broken, quick, general_items):
             diffs.append({"case": cid, "source": src_of.get(cid, "")[:3000], "real": real[:1500], "model": (tag + " " + body)[:1500]})
         for ft in feats_of.get(cid, []):
             feats[ft] = feats.get(ft, 0) + 1
+    if res and feats.get("params>240", 0) < 20:
+        # the many-parameters family (janetc_fn_moveargs / Compile/Model.fnMoveArgs) must be compared, not skipped
+        broken.append("compile correspondence: only %d of the 27 programs with > 240 parameters are inside the model compiler's fragment"
+                      % feats.get("params>240", 0))
+        ctx.broken.append(broken[-1])
     if diffs:
         broken.append("correspondence Compile/Model vs real compile.c/specials.c: %d programs with differing funcdef trees, first %r" % (len(diffs), diffs[0]))
         ctx.broken.append(broken[-1])
